@@ -296,6 +296,11 @@ def _selector_list(expr: ast.expr, want: str) -> List[Optional[str]]:
         parts = [unwrap(x) for x in e.args[0].elts]
     out: List[Optional[str]] = []
     for part in parts:
+        if isinstance(part, ast.IfExp):
+            # a two-way definition (selected when there is something stored, untouched when empty): the selector of the arm that selects
+            arms = {s_ for arm in (part.body, part.orelse) for s_ in _selector_list(arm, want) if s_}
+            out.append(next(iter(arms)) if len(arms) == 1 else None)
+            continue
         sel = None
         n = part
         # peel trailing [:, None] etc.
@@ -337,6 +342,24 @@ def paired_selectors(prog: Program, fi: FuncInfo) -> List[Tuple[str, str, str, a
                 shape_l = sh
             if any(su) and not subs_l:
                 subs_l = su
+        if any(subs_l) and not any(shape_l):
+            # subscript columns are selected, but the sizes handed over with them are not `shape[selector]`: either a POSITIONAL piece of the
+            # shape (np.split / a slice: the first k sizes, whatever modes the selector names) - a definite mismatch - or something the rule
+            # cannot read (reported as undecided, so that the site is not lost silently)
+            for a in list(c.args) + [k.value for k in c.keywords]:
+                inl = canon._inline(copy.deepcopy(a), 0)
+                txt = ast.unparse(inl)
+                if "shape" in txt and "subs" not in txt:
+                    positional = "np.split(" in txt or any(isinstance(x, ast.Subscript) and isinstance(x.slice, ast.Slice) and "shape" in ast.unparse(x.value)
+                                                            for x in ast.walk(inl))
+                    # ... of the RAW shape: a piece of shape[selector] may well be the right sizes (undecided)
+                    reselected = any(isinstance(x, ast.Subscript) and "shape" in ast.unparse(x.value) and "subs" not in ast.unparse(x.value)
+                                     and not isinstance(x.slice, (ast.Slice, ast.Constant, ast.Tuple)) for x in ast.walk(inl))
+                    positional = positional and not reselected
+                    b_txt = next(x for x in subs_l if x)
+                    out.append(((f"<positional piece of the shape: {txt[:50]}>" if positional else None), b_txt, ast.unparse(c)[:120], c))
+                    break
+            continue
         if any(shape_l) and any(subs_l):
             if len(shape_l) == len(subs_l):
                 a_txt = " ++ ".join(x or "-" for x in shape_l)
